@@ -274,6 +274,12 @@ Definition mon_C14 : monitor := fun L s st s' =>
    | OPairReceive p c _ _ _ (HSwap _ _ _ _ _) =>
        asset_eqb (s_pair_asset L s p 0) (AToken c) || asset_eqb (s_pair_asset L s p 1) (AToken c)
    | OPairReceive _ _ _ _ _ _ => false
+   (* hooks relayed by a cw20 Send to a pair: a withdraw hook only from the pair's own LP token, a swap hook only
+      from one of the pair's cw20 assets *)
+   | OSend ta _ p _ HWithdraw => if mem_addr p (existing_pairs L s) then ta =? s_pair L s p 7 else true
+   | OSend ta _ p _ (HSwap _ _ _ _ _) =>
+       if mem_addr p (existing_pairs L s)
+       then asset_eqb (s_pair_asset L s p 0) (AToken ta) || asset_eqb (s_pair_asset L s p 1) (AToken ta) else true
    | ORouterOp c _ _ _ _ => c =? 1
    | ORouterAssertMin c _ _ _ _ => c =? 1
    | _ => true
@@ -388,6 +394,17 @@ Definition mon_C12 : monitor := fun L s st s' =>
        let donated := match ask with ANative d => coins_of d funds | AToken _ => 0 end in
        if donated =? 0 then (qr =? r) && (qs =? sp) && (qc =? c) else true
    | OSend _ _ _ _ (HSwap _ _ _ _ _), [qr; qs; qc], [_; r; sp; c] => (qr =? r) && (qs =? sp) && (qc =? c)
+   (* the pair refused to quote the very swap that then went through (asked in the same state, nothing else attached) *)
+   | OSwap p _ [(d, n)] (ANative d') amount _ _ _, [], [_; _; _; _] =>
+       negb ((d =? d') && (n =? amount) &&
+             existsb (fun qa => match qa with
+                                | (QSim p' (ANative d'') a', None) => (p' =? p) && (d'' =? d') && (a' =? amount)
+                                | _ => false end) (hs_queries st))
+   | OSend ta _ p n (HSwap (AToken tb) amount _ _ _), [], [_; _; _; _] =>
+       negb ((ta =? tb) && (n =? amount) &&
+             existsb (fun qa => match qa with
+                                | (QSim p' (AToken t'') a', None) => (p' =? p) && (t'' =? ta) && (a' =? amount)
+                                | _ => false end) (hs_queries st))
    | _, _, _ => true
    end, false).
 
@@ -415,6 +432,30 @@ Definition mon_C13 : monitor := fun L s st s' =>
    | ORouterOps c funds ops _ to =>
        (match ops with (ANative d, _) :: _ => chk c (ANative d) (coins_of d funds) ops to | _ => true end)
    | OSend ta sd 1 n (HRouterOps ops _ to) => chk sd (AToken ta) n ops to
+   | _ => true
+   end, false).
+
+(* C06 at system level: the band, the commission equation and the sum identity for every direct swap, evaluated on
+   the amounts the pair REPORTED and the reserves and commission rate it DESCRIBED just before *)
+Definition mon_C06 : monitor := fun L s st s' =>
+  if negb (hs_ok st) then (fail_unchanged st, false) else
+  (let chk (p : addr) (offer : asset) (amount : N) :=
+     match hs_extras st with
+     | [a; n; sp; m] =>
+         let a0 := s_pair_asset L s p 0 in let a1 := s_pair_asset L s p 1 in
+         let ask := if asset_eqb offer a0 then a1 else a0 in
+         let x := s_asset_bal L s offer p in let y := s_asset_bal L s ask p in
+         let c := s_pair L s p 10 in
+         (a =? amount) && (c <=? D) &&
+         (n * D * (x + a) <? y * a * (D - c) + D * (x + a)) &&
+         (y * a * (D - c) <? n * D * (x + a) + D * (x + a)) &&
+         (m =? c * (n + m) / D) && (n + m <=? y) && negb (x =? 0) && (n + m + sp =? a * y / x)
+     | _ => true
+     end in
+   match hs_op st with
+   | OSwap p _ [(d, k)] (ANative d') amount _ _ _ => if (d =? d') && (k =? amount) then chk p (ANative d') amount else true
+   | OSend ta _ p k (HSwap (AToken tb) amount _ _ _) =>
+       if mem_addr p (existing_pairs L s) && (ta =? tb) && (k =? amount) then chk p (AToken ta) amount else true
    | _ => true
    end, false).
 
